@@ -71,6 +71,8 @@ type interpreter struct {
 	pathReach   map[string]int
 	inInit      bool
 	tainted     bool
+	vcwd        string
+	egErr       map[*value]value
 	summOK      map[*ssa.Function]bool
 	panicStack  []string
 	frozenNames []string
